@@ -116,6 +116,9 @@ def run_integ(spec, rec, Integration, kind):
         active = [p for p, fz in zip(per, frozen) if not fz]
         dt = code_dt(active, Integration.timescale_factor)
         T = dt * float(rng.uniform(3.3, 120))
+        whole = kind == "scale" and (ci % 5 == 3 or (nd == 1 and ci % 2 == 1))
+        if whole:
+            T = dt * int(rng.integers(4, 60))       # a whole number of steps: the step count must not hinge on round-off of T/dt
         timevar = bool(rng.random() < 0.5)
         if kind == "scale":
             # both parameter paths meet both extreme rescalings in every batch, however few cases it has
@@ -179,11 +182,16 @@ def run_integ(spec, rec, Integration, kind):
             if not rec.case("sc%d-%d" % (nd, ci), desc, nontrivial=(not 0.9 <= c <= 1.1 and has_rate)):
                 continue
             tags = {"nd": nd, "timevar": timevar, "binding": focus[1] if focus else "any"}
-            kws, Ts = scaled(kwt, c, T)
             ok1, r1 = rec.noraise("driver-returns", lambda: f(phi1.copy(), xx, T, **kwt), site=site, tags=tags)
-            ok2, r2 = rec.noraise("driver-returns", lambda: f(phi1.copy(), xx, Ts, **kws), site=site, tags=tags)
-            if ok1 and ok2:
-                rec.close("refsize-integrator", relerr(r2, r1), TOL, site=site, tags=tags)
+            for cc in ([c] + ([3.0, 7.0, 0.3, 1.7] if whole else [])):
+                kws, Ts = scaled(kwt, cc, T)
+                ok2, r2 = rec.noraise("driver-returns", lambda: f(phi1.copy(), xx, Ts, **kws), site=site, tags=tags)
+                if ok1 and ok2:
+                    rec.close("refsize-integrator", relerr(r2, r1), TOL, site=site, tags=dict(tags, whole_steps=whole))
+
+
+PHI1D_GUARD = [(2.0, -400.0, 2.0), (2.0, -160.0, 0.5), (0.1, -20.0, 0.05), (8.0, -60.0, 0.25), (2.0, -250.0, 0.5), (0.5, -500.0, 3.0),
+               (4.0, -80.0, 0.25), (1.0, -299.0, 1.3), (1.0, -301.0, 0.7), (3.0, -118.0, 0.4), (0.3, -1100.0, 4.0), (10.0, -35.6, 0.1)]
 
 
 def run_phi1d(spec, rec, PhiManip, Numerics):
@@ -197,6 +205,11 @@ def run_phi1d(spec, rec, PhiManip, Numerics):
         h = float(rng.choice([0.5, 0.5, rng.uniform(0, 1), 0.0, 1.0]))
         beta = float(rng.choice([1.0, np.exp(rng.uniform(np.log(0.2), np.log(5)))]))
         c = float(rng.choice([0.05, 20.0, np.exp(rng.uniform(np.log(0.05), np.log(20)))]))
+        if ci < len(PHI1D_GUARD):
+            # strong selection around the overflow guards of the closed forms (|effective gamma| ~ 300 and ~ 355, effective
+            # gamma = gamma * nu * 4 beta/(beta+1)^2): the raw gamma and the effective one on opposite sides of a guard
+            nu, gamma, c = PHI1D_GUARD[ci]
+            h, beta = (0.5 if ci % 3 else float(rng.uniform(0, 1))), 1.0
         desc = {"L": L, "nu": nu, "theta0": theta0, "gamma": gamma, "h": h, "beta": beta, "c": c}
         if not rec.case("phi-%d" % ci, desc, nontrivial=(gamma != 0 and not 0.9 <= c <= 1.1)):
             continue
